@@ -494,7 +494,7 @@ def run(ctx):
 
 def _run(ctx, root):
     ex_cases, ex_info = exhaustive_cases(ctx)
-    n_random = 2500 if not ctx.thorough else 6000
+    n_random = 2500 if not ctx.thorough else 4000
     max_len = 40 if not ctx.thorough else 400
     rnd = random_cases(ctx, n_random, max_len)
     if ctx.thorough:
